@@ -108,11 +108,25 @@ def class_members(cls_file, cls):
     flat = []; d = 0
     for ch in body:
         if ch == '{': d += 1
-        elif ch == '}': d -= 1
+        elif ch == '}':
+            d -= 1
+            if d == 0: flat.append(';')
         elif d == 0: flat.append(ch)
     flat = ''.join(flat)
     funcs = set(re.findall(r'\b([A-Za-z_]\w*)\s*\(', flat)) - {'if', 'while', 'for', 'switch', 'return', cls, 'operator', 'sizeof', 'throw'}
-    datas = set(re.findall(r'\b([A-Za-z_]\w*)\s*;', flat))
+    datas = set()
+    for stmt in flat.split(';'):
+        stmt = stmt.strip()
+        # strip access labels
+        stmt = re.sub(r'\b(public|private|protected)\s*:', '', stmt).strip()
+        if not stmt or '(' in stmt or stmt.startswith(('typedef', 'using', 'friend', 'template')):
+            continue
+        parts = stmt.split(',')
+        m0 = re.search(r'([A-Za-z_]\w*)\s*(?:=[^,]*)?$', parts[0].strip())
+        if m0: datas.add(m0.group(1))
+        for pz in parts[1:]:
+            mz = re.match(r'\s*[\*&]?\s*([A-Za-z_]\w*)\s*(?:=.*)?$', pz.strip())
+            if mz: datas.add(mz.group(1))
     return funcs, datas
 
 def extract(unit, enums, sigs):
@@ -175,6 +189,9 @@ def extract(unit, enums, sigs):
     if cls:
         params.append((cls, 'self', True, is_const_member))
         ctx.env['self'] = (cls, True)
+    unit.setdefault('classes', [])
+    if cls and cls not in unit['classes']: unit['classes'] = list(unit['classes']) + [cls]
+    unit['extra_types'] = list(set(unit.get('extra_types', [])) | set(unit['classes']))
     for a in split_args(par_toks):
         if not a: continue
         # drop default argument
@@ -215,6 +232,9 @@ def extract(unit, enums, sigs):
     if cls:
         funcs, datas = class_members(unit['cls_file'], cls)
         toks = r_members(ctx, toks, cls, funcs, datas)
+    toks = r_opcalls(ctx, toks)
+    toks = r_methods(ctx, toks)
+    toks = r_class_ops(ctx, toks)
     toks = r_optionals(ctx, toks)
     toks = r_vectors(ctx, toks)
     toks = r_refs(ctx, toks)
